@@ -5,6 +5,7 @@ import (
 
 	"github.com/bronlabs/errs-go/errs"
 
+	"github.com/bronlabs/bron-crypto/pkg/base/curves"
 	"github.com/bronlabs/bron-crypto/pkg/base/serde"
 )
 
@@ -37,6 +38,9 @@ func (fe *BaseFieldElementG1) UnmarshalCBOR(data []byte) error {
 	if err != nil {
 		return errs.Wrap(err).WithMessage("failed to unmarshal base field element")
 	}
+	if dto == nil {
+		return curves.ErrSerialisation.WithMessage("BaseFieldElementG1 DTO is nil")
+	}
 	e, err := NewG1BaseField().FromBytes(dto.FieldBytes)
 	if err != nil {
 		return errs.Wrap(err).WithMessage("cannot deserialize base field element")
@@ -60,6 +64,9 @@ func (fe *BaseFieldElementG2) UnmarshalCBOR(data []byte) error {
 	dto, err := serde.UnmarshalCBOR[*baseFieldElementG2DTO](data)
 	if err != nil {
 		return errs.Wrap(err).WithMessage("failed to unmarshal base field element")
+	}
+	if dto == nil {
+		return curves.ErrSerialisation.WithMessage("BaseFieldElementG2 DTO is nil")
 	}
 	e, err := NewG2BaseField().FromBytes(dto.FieldBytes)
 	if err != nil {
@@ -85,6 +92,9 @@ func (s *Scalar) UnmarshalCBOR(data []byte) error {
 	if err != nil {
 		return errs.Wrap(err).WithMessage("failed to unmarshal scalar")
 	}
+	if dto == nil {
+		return curves.ErrSerialisation.WithMessage("Scalar DTO is nil")
+	}
 	e, err := NewScalarField().FromBytes(dto.FieldBytes)
 	if err != nil {
 		return errs.Wrap(err).WithMessage("cannot deserialize scalar")
@@ -109,6 +119,9 @@ func (p *PointG1) UnmarshalCBOR(data []byte) error {
 	if err != nil {
 		return errs.Wrap(err).WithMessage("failed to unmarshal point")
 	}
+	if dto == nil {
+		return curves.ErrSerialisation.WithMessage("PointG1 DTO is nil")
+	}
 	e, err := NewG1().FromCompressed(dto.AffineCompressedBytes)
 	if err != nil {
 		return errs.Wrap(err).WithMessage("cannot deserialize point")
@@ -132,6 +145,9 @@ func (p *PointG2) UnmarshalCBOR(data []byte) error {
 	dto, err := serde.UnmarshalCBOR[*pointG2DTO](data)
 	if err != nil {
 		return errs.Wrap(err).WithMessage("failed to unmarshal point")
+	}
+	if dto == nil {
+		return curves.ErrSerialisation.WithMessage("PointG2 DTO is nil")
 	}
 	e, err := NewG2().FromCompressed(dto.AffineCompressedBytes)
 	if err != nil {
